@@ -206,7 +206,7 @@ package websocket
 //@ pred unmaskedAt(s, isServer, ps, i) := ite(isServer, s[ps+i] ^ s[ps-4+(i&3)], s[ps+i])
 
 //@ func (*Conn).advanceFrame
-//@ tags C03 C04 C05 C06 C07 C08
+//@ tags C03 C04 C05 C06 C07 C08 C15!
 //@ option weakb2i
 //@ let h := c.br.g_rd + c.readRemaining
 //@ let s := c.br.g_in
@@ -224,6 +224,7 @@ package websocket
 //@ ensures[C03.hdr] imp(err == nil && (r0 == 0 || r0 == 1 || r0 == 2), \
 //@     r0 == rfc_opcode(s, h) && c.br.g_rd == h + rfc_hdrLen(s, h) && c.readRemaining == rfc_payLen(s, h) && \
 //@     c.readFinal == rfc_fin(s, h) && c.readDecompress == rfc_rsv1(s, h) && c.g_hcalls == old(c.g_hcalls))
+//@ ensures[C03+C15.rsv1] imp(err == nil && (r0 == 0 || r0 == 1 || r0 == 2), c.readDecompress == rfc_rsv1(s, h))
 //@ ensures[C03.key] imp(err == nil && (r0 == 0 || r0 == 1 || r0 == 2) && c.isServer, \
 //@     c.readMaskPos == 0 && forall(k, 0, 4, c.readMaskKey[k] == s[c.br.g_rd - 4 + k]))
 //@ ensures[C03.nokey] imp(err == nil && !c.isServer, c.readMaskPos == old(c.readMaskPos))
@@ -573,7 +574,7 @@ package websocket
 //@ tags C01 C02 C10 C20
 //@ results n err
 //@ let c := w.c
-//@ requires imp(w.err == nil, WBuf(w) && region(p) != region(w.c.writeBuf) && region(p) >= 0 && live(p)) && imp(w.err == nil, WData(w))
+//@ requires imp(w.err == nil, WBuf(w) && region(p) != region(w.c.writeBuf) && live(p)) && imp(w.err == nil, WData(w))
 //@ requires imp(w.err == nil, forall(i, 0, len(p), p[i] == w.c.g_app[w.c.g_acc + i]))
 //@ modifies MsgMods(w)
 //@ ensures[C09.sticky] imp(old(c.writeErr) != nil, c.writeErr == old(c.writeErr))
@@ -1024,6 +1025,8 @@ package websocket
 //@ results conn resp err
 //@ requires imp(d != nil, d.ReadBufferSize <= 1099511627776 && d.WriteBufferSize <= 1099511627776)
 //@ bind ck,ckerr after call:generateChallengeKey#1
+//@ bind u,uerr after call:Parse#1
+//@ bind conn after call:newConn#1
 //@ bind okUpg after call:tokenListContainsValue#1
 //@ bind okConn after call:tokenListContainsValue#2
 //@ bind acc after call:Get#1
@@ -1096,14 +1099,14 @@ package websocket
 //@ tags C19
 //@ requires 0 - 2 <= key.compressionLevel && key.compressionLevel <= 9 && pm.frames != nil && region(pm.data) >= 0 && region(pm.data) < alloc() && live(pm.data)
 //@ ensures[C19.type] r0 == pm.messageType
-//@ assert at call:Do#1[C19.cache]: haskey(pm.frames, key) && pm.frames[key] == frame
+//@ assert at call:Do#1[C19.cache]: haskey(pm.frames, key) && ref(pm.frames[key]) == owner(arg0)
 //@ ensures[C19.own] imp(!old(haskey(pm.frames, key)) && r2 == nil, region(r1) == 0 || region(r1) >= old(alloc()))
 
 // The rendering closure run under the frame's sync.Once.
 //@ func (*PreparedMessage).frame$1
 //@ tags C19
 //@ requires 0 - 2 <= key.compressionLevel && key.compressionLevel <= 9 && pm != nil && region(pm.data) >= 0 && region(pm.data) < alloc() && live(pm.data) && frame != nil
-//@ ghost before call:WriteMessage#1: c.g_app :| forall(i, 0, len(pm.data), pm.data[i] == c.g_app[c.g_acc + i])
+//@ ghost before call:WriteMessage#1: arg0.g_app :| forall(i, 0, len(pm.data), pm.data[i] == arg0.g_app[arg0.g_acc + i])
 //@ assert at call:WriteMessage#1[C19.conn]: arg0.isServer == key.isServer && arg0.compressionLevel == key.compressionLevel && iff(arg0.newCompressionWriter != nil, key.compress) && \
 //@     arg0.enableWriteCompression && arg1 == pm.messageType && same(arg2, pm.data) && arg0.writer == nil && arg0.writePool == nil
 
@@ -1181,6 +1184,8 @@ package websocket
 //@ bind nc,ncerr after call:netDial#1
 //@ bind hp,hnp after call:hostPortNoPort#1
 //@ bind hs after call:doHandshake#1
+//@ bind cfg after call:cloneTLSConfig#1
+//@ bind tlsConn after call:Client#1
 //@ assert at call:netDial#1[C18.firsthop]: streq(arg1, "tcp") && same(arg2, addr)
 //@ assert at call:Client#1[C18.tlsover]: arg0 == nc && arg1 == cfg
 //@ assert at call:doHandshake#1[C18.servername]: arg1 == tlsConn && arg2 == cfg && ref(cfg) >= old(alloc()) && imp(tlsConfig == nil || len(tlsConfig.ServerName) == 0, same(cfg.ServerName, hnp))
@@ -1210,3 +1215,49 @@ package websocket
 //@ assert at call:netDialWithDeadline#1[C16.deadline]: arg0 == ite(proxyURL != nil, viaProxy, direct)
 //@ assert at call:proxyFromURL#1[C16.proxydeadline]: arg0 == proxyURL && arg1 == ite(extres("(context.Context).Deadline", 1, ctx), dl, viaProxy)
 //@ assert at return#2[C16.deadline]: proxyURL == nil && fn == ite(extres("(context.Context).Deadline", 1, ctx), dl, direct)
+
+// ---------------------------------------------------------------------------
+// Default control-frame handlers (C08) and the deadline wrapper (C16)
+
+// default ping handler: one pong with the identical payload
+//@ func (*Conn).SetPingHandler$1
+//@ tags C08
+//@ requires c != nil && !held(c.mu) && c.conn != nil
+//@ cover WriteControl C08.pong
+//@ assert at call:WriteControl#1[C08.pong]: arg0 == c && arg1 == 10 && len(arg2) == len(message) && forall(i, 0, len(message), arg2[i] == message[i])
+//@ ensures[C08.pong] result == nil
+
+// default close handler: one close frame echoing the received status code
+//@ func (*Conn).SetCloseHandler$1
+//@ tags C08
+//@ requires c != nil && !held(c.mu) && c.conn != nil
+//@ bind msg after call:FormatCloseMessage#1
+//@ cover WriteControl C08.closeecho
+//@ assert at call:FormatCloseMessage#1[C08.closeecho]: arg0 == code && len(arg1) == 0
+//@ assert at call:WriteControl#1[C08.closeecho]: arg0 == c && arg1 == 8 && same(arg2, msg)
+//@ ensures[C08.closeecho] result == nil
+
+//@ func netDialWithDeadline$1
+//@ tags C16
+//@ bind nc,ncerr after call:netDial#1
+//@ assert at call:netDial#1[C16.wrap]: same(arg1, network) && same(arg2, addr)
+//@ assert at call:SetDeadline#1[C16.deadline]: arg0 == nc && arg1 == deadline
+//@ assert at return#2[C16.cleanup]: nc.g_closed && r0 == nil
+//@ assert at return#3[C16.deadline]: r0 == nc && !nc.g_closed && imp(!(deadline.wall == 0 && deadline.ext == 0 && deadline.loc == nil), nc.g_wdl && nc.g_rdl)
+
+// ---------------------------------------------------------------------------
+// compression.go: truncWriter forwards everything but the last four bytes it
+// has been given.  hand(j) is byte j of (bytes held) ++ p.
+//@ func (*truncWriter).Write
+//@ tags C02 C07
+//@ results n err
+//@ let M := asType(w.w, "*messageWriter")
+//@ let c := asType(w.w, "*messageWriter").c
+//@ let T := w.n + len(p)
+//@ let keep := ite(w.n + len(p) < 4, w.n + len(p), 4)
+//@ let fwd := w.n + len(p) - ite(w.n + len(p) < 4, w.n + len(p), 4)
+//@ requires w.w != nil && typeIs(w.w, "*messageWriter") && 0 <= w.n && w.n <= 4 && M.err == nil && WBuf(M) && WData(M) && region(p) != region(c.writeBuf) && region(p) >= 0 && live(p)
+//@ requires forall(j, 0, fwd, ite(j < w.n, w.p[j], p[j - w.n]) == c.g_app[c.g_acc + j])
+//@ ensures[C02.tail.count] imp(err == nil, w.n == keep && c.g_acc == old(c.g_acc) + fwd)
+//@ ensures[C02.tail.held] imp(err == nil, forall(j, 0, keep, w.p[j] == ite(fwd + j < old(w.n), old(w.p[fwd + j]), p[fwd + j - old(w.n)])))
+//@ ensures[C02.tail.state] imp(err == nil, M.err == nil && WBuf(M) && WData(M))
